@@ -21,7 +21,14 @@ package metadata
 //@ spec secCount(h annotations.AnnotationHolder) int = annotations.countName(h, "Security", len(h.attributes))
 //@ spec isSecOf(h annotations.AnnotationHolder, s []definitions.RouteSecurity) bool = len(s) == secCount(h) && forall(k, 0, len(h.attributes), implies(h.attributes[k].Name == "Security", len(s[annotations.countName(h, "Security", k)].SecurityAnnotation) == 1 && s[annotations.countName(h, "Security", k)].SecurityAnnotation[0].SchemaName == h.attributes[k].Value && h.attributes[k].Value != ""))
 
+// scopesFrom: the scopes of an alternative are the @Security attribute's `scopes` property (or empty when it has none)
+//@ spec scopesFrom(c definitions.SecurityAnnotationComponent, props map[string]any) bool = implies(!indom(props, "scopes"), len(c.Scopes) == 0) && implies(len(c.Scopes) > 0, len(c.Scopes) == annotations.propLen(props, "scopes") && forall(j, 0, len(c.Scopes), c.Scopes[j] == annotations.propAt(props, "scopes", j)))
+
 //@ func GetSecurityFromContext props C03,C04,C14
+//@ ensures scopes: implies(result1 == nil, forall(k, 0, len(holder.attributes), implies(holder.attributes[k].Name == "Security", scopesFrom(result0[annotations.countName(*holder, "Security", k)].SecurityAnnotation[0], holder.attributes[k].Properties))))
+//@ loop 0 invariant forall(i, 0, _n, implies(!indom(normalSec[i].Properties, "scopes"), len(securities[i].SecurityAnnotation[0].Scopes) == 0))
+//@ loop 0 invariant forall(i, 0, _n, implies(len(securities[i].SecurityAnnotation[0].Scopes) > 0, len(securities[i].SecurityAnnotation[0].Scopes) == annotations.propLen(normalSec[i].Properties, "scopes")))
+//@ loop 0 invariant forall(i, 0, _n, forall(j, 0, len(securities[i].SecurityAnnotation[0].Scopes), securities[i].SecurityAnnotation[0].Scopes[j] == annotations.propAt(normalSec[i].Properties, "scopes", j)))
 //@ requires holder != nil
 //@ ensures ok: implies(result1 == nil, isSecOf(*holder, result0))
 //@ ensures emptyName: implies(exists(k, 0, len(holder.attributes), holder.attributes[k].Name == "Security" && holder.attributes[k].Value == ""), result1 != nil)
